@@ -10,7 +10,7 @@ func init() {
 		ID: "C01", Test: "TestC01", Kind: "file", Level: "fault_enumeration",
 		Quick: 2000, Thorough: 5000,
 		Rule: "evaluations = generated histories; each history (1-10 transactions quick, up to 30 thorough; alloc/overwrite/free/flush/checkpoint/" +
-			"rollback/failed commits/reopens, bounded and unbounded, any WAL limit and initial meta area) is executed once on the simulated disk, then for EVERY " +
+			"rollback/failed commits/reopens/overflow-area transactions/max-size changes on open, bounded and unbounded, any WAL limit and initial meta area) is executed once on the simulated disk, then for EVERY " +
 			"op-log position after file creation all crash images are built: durable prefix + every subset of the un-synced page writes/truncates " +
 			"(all 2^p subsets for p<=MaxFull, otherwise none/all/only-one/all-but-one/prefix/suffix families + random subsets) + torn header writes; each image " +
 			"is reopened through the normal open path and must expose exactly an allowed model state (identified by header txid), pass the allocator " +
@@ -27,7 +27,7 @@ func init() {
 }
 
 func C01Params(thorough bool) harness.GenParams {
-	p := harness.GenParams{MaxItems: 10, MaxOps: 8, Reopen: true, Stall: true, MaxPages: 96, NoFill: false}
+	p := harness.GenParams{MaxItems: 10, MaxOps: 8, Reopen: true, Stall: true, MaxPages: 96, NoFill: false, Overflow: true}
 	if thorough {
 		p.MaxItems, p.MaxOps, p.MaxPages = 30, 10, 200
 		p.HugeTx = true // histories with > 1024 queued page writes (expensive: thousands of pages per image)
